@@ -40,6 +40,12 @@ class HarnessError(Exception):
 CUR = None          # engine of the path being executed (symbolic runs)
 
 
+def _snap(plan):
+    """deep copy of a decision log (value lists must not be shared with the live plan)"""
+    return [[(list(x) if isinstance(x, list) else x) for x in p] for p in plan]
+
+
+
 def cur():
     return CUR
 
@@ -55,7 +61,7 @@ class Engine:
         self.plan = []          # entries: ['b', taken, both, flipped, nadds] | ['c', i, n, nadds] | ['v', vals, exhausted, nadds]
         self.fixed = 0          # leading plan entries that form a fixed prefix
         if prefix:
-            self.plan = [list(p) for p in prefix]
+            self.plan = _snap(prefix)
             self.fixed = len(self.plan)
         self.split_depth = split_depth
         self.prefixes = []      # collected when split_depth is set
@@ -168,7 +174,7 @@ class Engine:
             return taken
         self._popto(self.apos)
         if self.split_depth is not None and len(self.plan) >= self.split_depth:
-            self.prefixes.append([list(p) for p in self.plan])
+            self.prefixes.append(_snap(self.plan))
             self._abort(PathAbort('split'))
         self._tick()
         can_t = self._check(cond)
@@ -195,7 +201,7 @@ class Engine:
             self.choices.append(ent[1])
             return ent[1]
         if self.split_depth is not None and len(self.plan) >= self.split_depth:
-            self.prefixes.append([list(p) for p in self.plan])
+            self.prefixes.append(_snap(self.plan))
             self._abort(PathAbort('split'))
         self.plan.append(['c', 0, n, self.apos])
         self.pos += 1
@@ -233,7 +239,7 @@ class Engine:
             return v
         self._popto(self.apos)
         if self.split_depth is not None and len(self.plan) >= self.split_depth:
-            self.prefixes.append([list(p) for p in self.plan])
+            self.prefixes.append(_snap(self.plan))
             self._abort(PathAbort('split'))
         if not self._check():
             self._abort(PathAbort('infeasible'))
